@@ -77,6 +77,7 @@ def main():
     if not ck.build():
         ck.finish()
     ck.check_props()
+    ck.check_translation("apps")
     cases = []
     for n in (1, 2):
         S = all_pstr(n)
